@@ -72,8 +72,16 @@ class Prop(BaseProp):
                     common += ["-e", pat]
                 res.count("runs_with_exclude_patterns")
             if single:
-                rel_in = rng.choice(sorted(tree.files))
-                target = lambda root: os.path.join(root, rel_in)          # noqa: E731
+                if rng.random() < 0.3:
+                    tree.files[".cmake"] = self.contents(rng, ".cmake")        # empty stem
+                    with open(os.path.join(loc1, ".cmake"), "w") as fh:
+                        fh.write(tree.files[".cmake"])
+                    rel_in = ".cmake"
+                    res.count("single_file_with_empty_stem")
+                else:
+                    rel_in = rng.choice(sorted(tree.files))
+                rel_in_fixed = rel_in
+                target = lambda root: os.path.join(root, rel_in_fixed)    # noqa: E731
                 flags = common
             else:
                 target = lambda root: root                                # noqa: E731
